@@ -60,5 +60,49 @@ def _src():
 _s, _callees, _kernels = _src()
 _mod = load_generated("exoverif_replacegen", _s)
 PROCS = [getattr(_mod, n) for n in _kernels]
+
+
+# ---- kernels with distinct index symbols that share a display name (an inlined callee loop `i` inside a caller
+#      loop `i`): a unifier that identifies variables by name confuses x[i] with x[i']
+def _clash_kernels():
+    from exo.stdlib.scheduling import inline, inline_window, rename, simplify
+    src = """from __future__ import annotations
+from exo import proc
+
+@proc
+def rn_row(n: size, k: index, dst: [f32][n], src: [f32][n]):
+    assert k >= 0
+    assert k < n
+    for i in seq(0, n):
+        dst[i] = src[k] + src[i]
+
+@proc
+def rn_row2(n: size, k: index, dst: [f32][n], src: [f32][n]):
+    assert k >= 0
+    assert k < n
+    for i in seq(0, n):
+        dst[i] = src[i] + src[k]
+
+@proc
+def rn_pairs(x: f32[8], y: f32[8, 8]):
+    for i in seq(0, 8):
+        rn_row(8, i, y[i, 0:8], x[0:8])
+
+@proc
+def rn_pairs2(x: f32[8], y: f32[8, 8]):
+    for i in seq(0, 8):
+        rn_row2(8, i, y[i, 0:8], x[0:8])
+"""
+    m = load_generated("exoverif_replacegen_clash", src)
+    out = []
+    for nm, callee in (("rn_pairs", "rn_row(_)"), ("rn_pairs2", "rn_row2(_)")):
+        p = inline(getattr(m, nm), callee)
+        for w in ("dst = _", "src = _"):
+            p = inline_window(p, w)
+        out.append(rename(simplify(p), nm + "_inl"))
+    return out
+
+
+PROCS += _clash_kernels()
 CONFIGS = []
 SUBPROCS = {n: getattr(_mod, n) for n in _callees}
